@@ -474,6 +474,58 @@ func judgeBelow(w *sim.Snap) (sig, msg string) {
 	return "", ""
 }
 
+// wrapRows lays plain one-cell-per-rune lines out on rows of width w, the way a terminal does.
+func wrapRows(lines []string, w int) []string {
+	var rows []string
+	for _, l := range lines {
+		r := []rune(l)
+		if len(r) == 0 {
+			rows = append(rows, "")
+		}
+		for len(r) > 0 {
+			n := len(r)
+			if n > w {
+				n = w
+			}
+			rows = append(rows, strings.TrimRight(string(r[:n]), " "))
+			r = r[n:]
+		}
+	}
+	return rows
+}
+
+// judgeAbove: the rows directly above the input area hold what was written there last (the upper
+// lines of a prompt of several lines and, above them, the lines of a message the application
+// printed), each alone on its rows. lines lists them top-down; rows scrolled off the top are not judged.
+func judgeAbove(w *sim.Snap, lines []string) (sig, msg string) {
+	t := w.Screen
+	if t == nil || w.Queries == 0 || len(lines) == 0 {
+		return "", ""
+	}
+	rows := wrapRows(lines, t.W)
+	anchorRow := w.AnchorAbsRow - t.Scrolled
+	if anchorRow > t.H {
+		return "", ""
+	}
+	for i := range rows {
+		r := anchorRow - len(rows) + i
+		if r < 0 || r >= t.H {
+			continue
+		}
+		if got := t.RowText(r); got != rows[i] {
+			return "layout:above-the-input-area", fmt.Sprintf("row %d, %d above the input area (which starts on row %d), shows %q; what was printed there last is %q; terminal %dx%d; screen %q",
+				r, anchorRow-r, anchorRow, got, rows[i], t.W, t.H, t.Dump())
+		}
+	}
+	return "", ""
+}
+
+// promptUpper gives the lines of a prompt above its last one, without colour sequences.
+func promptUpper(prompt string) []string {
+	l := strings.Split(csiRx.ReplaceAllString(prompt, ""), "\n")
+	return l[:len(l)-1]
+}
+
 func execC04(x *Ctx, sc *wire.Scenario) *wire.Result {
 	res := okResult(sc)
 	out := runSession(x, sc, sc.Plan, sim.Hooks{}, true)
@@ -529,6 +581,39 @@ func execC04(x *Ctx, sc *wire.Scenario) *wire.Result {
 					return violation(res, "LAYOUT", "C04.no-remnants", sig, fmt.Sprintf("frame after %d keys (%s): %s", w.Tokens, lastCmd(sc, w.Tokens), msg))
 				}
 				res.Counters["frames_judged_below"]++
+			}
+			// above the input area: the upper lines of the prompt, untouched by every redisplay. Named by what
+			// the session had displayed before (the engine loses track of the row the input area starts on in
+			// two situations that are listed findings; a session with neither is named as "plain")
+			if up := promptUpper(sc.Env.Prompt); len(up) > 0 {
+				cls := "plain"
+				if !quiet {
+					cls = "after-a-hint"
+				}
+				multi := false
+				for j := 0; j <= i; j++ {
+					if strings.Contains(out.Waits[j].Line, "\n") {
+						multi = true
+					}
+				}
+				for k := 0; k < w.Tokens && k < len(sc.Script); k++ {
+					if c := sc.Script[k].Cmd; strings.Contains(c, "history") || strings.Contains(c, "search") {
+						for _, h := range sc.Env.History {
+							for _, e := range h.Entries {
+								if strings.Contains(e, "\n") {
+									multi = true
+								}
+							}
+						}
+					}
+				}
+				if multi {
+					cls = "after-a-buffer-of-several-lines"
+				}
+				if sig, msg := judgeAbove(w, up); sig != "" {
+					return violation(res, "LAYOUT", "C04.prompt-intact", sig+":"+cls, fmt.Sprintf("frame after %d keys (%s): %s", w.Tokens, lastCmd(sc, w.Tokens), msg))
+				}
+				res.Counters["frames_judged_above"]++
 			}
 		case "unjudged":
 			res.Counters["frames_unjudged"]++
